@@ -134,6 +134,7 @@ func c18Predicate(r *an.Run) {
 		return
 	}
 	var contains []*ssa.Call
+	var cf *ssa.Call // slices.ContainsFunc(f.Doc.List, pred): the library form of the loop
 	for _, c := range an.Calls(f) {
 		call, ok := c.(*ssa.Call)
 		if !ok || call == isGen || an.IsCallTo(c, "builtin:len") {
@@ -143,37 +144,89 @@ func c18Predicate(r *an.Run) {
 			contains = append(contains, call)
 			continue
 		}
+		if an.IsCallTo(c, "slices.ContainsFunc") && cf == nil {
+			cf = call
+			continue
+		}
 		r.Fail(short(f)+"|extra-call|"+an.CalleeName(c), c.Pos(), "the predicate consults something besides ast.IsGenerated and strings.Contains: %s", an.CalleeName(c))
 	}
-	if !r.Check(len(contains) == 1, short(f)+"|Contains", f.Pos(), "the predicate has one substring test (found %d)", len(contains)) {
-		return
-	}
-	ct := contains[0]
-	needle, ok := an.ConstString(ct.Call.Args[1])
-	r.Check(ok && needle == "@generated", short(f)+"|needle", ct.Pos(), "the marker searched for is exactly \"@generated\" (got %q)", needle)
-	hay := an.Path(ct.Call.Args[0])
-	r.Check(hay == "f.Doc.List[].Text", short(f)+"|haystack", ct.Pos(), "the marker is searched in the text of the package comment f.Doc.List[i].Text (got %q) — not in f.Comments, so markers after the package clause do not count", hay)
-	// the loop over f.Doc.List covers all comments
-	ils := findIndexLoops(f, isLenOfPath("f.Doc.List"))
-	if r.Check(len(ils) == 1, short(f)+"|doc-loop", f.Pos(), "one loop over all comments of f.Doc") {
-		il := ils[0]
-		msg := il.CoversAll(ct, func(b *ssa.BasicBlock) bool {
-			ret := an.ReturnOf(b)
-			if ret == nil {
-				return false
+	var ct *ssa.Call
+	if cf != nil && len(contains) == 0 {
+		// every element of f.Doc.List is handed to pred; pred is exactly the substring test
+		var pred *ssa.Function
+		switch v := cf.Call.Args[1].(type) {
+		case *ssa.MakeClosure:
+			pred, _ = v.Fn.(*ssa.Function)
+		case *ssa.Function:
+			pred = v
+		}
+		if !r.Check(pred != nil && pred.Blocks != nil && len(pred.Params) == 1, short(f)+"|Contains", cf.Pos(), "the element test handed to slices.ContainsFunc is a function of this module") {
+			return
+		}
+		var inner []*ssa.Call
+		for _, c := range an.Calls(pred) {
+			if call, ok := c.(*ssa.Call); ok && an.IsCallTo(c, "strings.Contains") {
+				inner = append(inner, call)
+			} else {
+				r.Fail(short(f)+"|extra-call|"+an.CalleeName(c), c.Pos(), "the predicate consults something besides ast.IsGenerated and strings.Contains: %s", an.CalleeName(c))
 			}
-			v, ok := an.ConstBool(ret.Results[0])
-			return ok && v
-		})
-		r.Check(msg == "" && il.Start == 0 && il.Step == 1, short(f)+"|doc-loop-covers", ct.Pos(), "every comment of the package doc is inspected; the loop is left early only to return true %s", msg)
+		}
+		if !r.Check(len(inner) == 1, short(f)+"|Contains", f.Pos(), "the predicate has one substring test (found %d)", len(inner)) {
+			return
+		}
+		needle, ok := an.ConstString(inner[0].Call.Args[1])
+		r.Check(ok && needle == "@generated", short(f)+"|needle", inner[0].Pos(), "the marker searched for is exactly \"@generated\" (got %q)", needle)
+		hay := an.Path(inner[0].Call.Args[0])
+		list := an.Path(cf.Call.Args[0])
+		r.Check(hay == pred.Params[0].Name()+".Text" && list == "f.Doc.List", short(f)+"|haystack", inner[0].Pos(), "the marker is searched in the text of the package comment f.Doc.List[i].Text (got %q of %q) — not in f.Comments, so markers after the package clause do not count", hay, list)
+		whole := true
+		for _, ret := range an.Returns(pred) {
+			if ret.Results[0] != ssa.Value(inner[0]) {
+				whole = false
+			}
+		}
+		r.Check(whole, short(f)+"|doc-loop-covers", cf.Pos(), "every comment of the package doc is inspected: the element test of slices.ContainsFunc returns the substring test itself")
+		ct = cf
+	} else {
+		if !r.Check(len(contains) == 1, short(f)+"|Contains", f.Pos(), "the predicate has one substring test (found %d)", len(contains)) {
+			return
+		}
+		ct = contains[0]
+		needle, ok := an.ConstString(ct.Call.Args[1])
+		r.Check(ok && needle == "@generated", short(f)+"|needle", ct.Pos(), "the marker searched for is exactly \"@generated\" (got %q)", needle)
+		hay := an.Path(ct.Call.Args[0])
+		r.Check(hay == "f.Doc.List[].Text", short(f)+"|haystack", ct.Pos(), "the marker is searched in the text of the package comment f.Doc.List[i].Text (got %q) — not in f.Comments, so markers after the package clause do not count", hay)
+		// the loop over f.Doc.List covers all comments
+		ils := findIndexLoops(f, isLenOfPath("f.Doc.List"))
+		if r.Check(len(ils) == 1, short(f)+"|doc-loop", f.Pos(), "one loop over all comments of f.Doc") {
+			il := ils[0]
+			msg := il.CoversAll(ct, func(b *ssa.BasicBlock) bool {
+				ret := an.ReturnOf(b)
+				if ret == nil {
+					return false
+				}
+				v, ok := an.ConstBool(ret.Results[0])
+				return ok && v
+			})
+			r.Check(msg == "" && il.Start == 0 && il.Step == 1, short(f)+"|doc-loop-covers", ct.Pos(), "every comment of the package doc is inspected; the loop is left early only to return true %s", msg)
+		}
 	}
 	// decision: returns
 	genBrs := an.BranchesOn(f, isGen)
 	ctBrs := an.BranchesOn(f, ct)
+	returnedDirectly := false // `return <the marker test>` as the last step
+	for _, ret := range an.Returns(f) {
+		if ret.Results[0] == ssa.Value(ct) {
+			returnedDirectly = true
+		}
+	}
 	for _, ret := range an.Returns(f) {
 		v, isc := an.ConstBool(ret.Results[0])
 		if !isc {
 			// `return ast.IsGenerated(f) || ...` style: accept if it is one of the atoms
+			if ret.Results[0] == ssa.Value(ct) {
+				returnedDirectly = true
+			}
 			if ret.Results[0] == ssa.Value(isGen) || ret.Results[0] == ssa.Value(ct) {
 				continue
 			}
@@ -187,10 +240,10 @@ func c18Predicate(r *an.Run) {
 		} else {
 			// unreachable when IsGenerated is true
 			r.Check(unreachableWithout(ret.Block(), edgesWhen(genBrs, false)), short(f)+"|false-needs-not-generated", ret.Pos(), "the predicate returns false only when ast.IsGenerated is false")
-			r.Check(len(ctBrs) > 0 && !reachableVia(ret.Block(), edgesWhen(ctBrs, true)), short(f)+"|false-needs-no-marker", ret.Pos(), "a true @generated test never leads to false")
+			r.Check(returnedDirectly || len(ctBrs) > 0 && !reachableVia(ret.Block(), edgesWhen(ctBrs, true)), short(f)+"|false-needs-no-marker", ret.Pos(), "a true @generated test never leads to false")
 		}
 	}
-	r.Check(len(genBrs) > 0 && len(ctBrs) > 0, short(f)+"|branches", f.Pos(), "the predicate branches on both tests")
+	r.Check(len(genBrs) > 0 && (len(ctBrs) > 0 || returnedDirectly), short(f)+"|branches", f.Pos(), "the predicate branches on both tests")
 	// f.Doc == nil guard exists and yields false (no panic on files without a package comment)
 	nilGuard := false
 	for _, c := range an.EqCases(f, func(v ssa.Value) bool { return an.Path(v) == "f.Doc" && !isAddr(v) }) {
